@@ -18,6 +18,28 @@ pub enum Entry {
     /// similar::algorithms::diff_deadline(alg, .., Some(deadline)) under the symbolic clock
     /// (hook H1): the same script claims at every expiry point
     DeadlineClock,
+    /// algorithms::diff with old and new being the SAME object (one buffer of `n` items) and
+    /// two different ranges of it (`m` selects the pair of ranges, see `same_buffer_ranges`)
+    SameBuffer,
+}
+
+/// Pairs of ranges of one buffer of `t` items: shared ends, shared starts, shifted windows.
+pub fn same_buffer_ranges(t: usize) -> Vec<(std::ops::Range<usize>, std::ops::Range<usize>)> {
+    let mut v = vec![];
+    for a in 0..t {
+        for b in 0..t {
+            if a != b {
+                v.push((a..t, b..t));
+            }
+        }
+    }
+    if t >= 2 {
+        v.push((0..t - 1, 1..t));
+        v.push((1..t, 0..t - 1));
+        v.push((0..t, 0..t - 1));
+        v.push((0..t - 1, 0..t));
+    }
+    v
 }
 
 #[derive(Clone, Debug)]
@@ -83,6 +105,7 @@ pub fn run_diff(
             similar::verif_clock::install(None);
             r
         }
+        Entry::SameBuffer => unreachable!("handled in run"),
         Entry::DiffSlices => match (&inp.old, &inp.new) {
             (Seq::Slice(o), Seq::Slice(n)) => algorithms::diff_slices(alg, mon, &o[..], &n[..]),
             _ => unreachable!(),
@@ -160,6 +183,14 @@ impl Prop for C01 {
                 }
             }
         }
+        // one buffer diffed against itself over two different ranges
+        for alg in ALGS {
+            for t in 2..=(if tier == Tier::Quick { 4 } else { 5 }) {
+                for (i, _) in same_buffer_ranges(t).iter().enumerate() {
+                    v.push(Shape { alg, n: t, m: i, layout: Layout::Slice { pre_o: 0, post_o: 0, pre_n: 0, post_n: 0 }, entry: Entry::SameBuffer, all_different: false });
+                }
+            }
+        }
         // block-structured inputs (block moves, duplicated blocks, repeats across a shared head / tail)
         let bl: Vec<Layout> = match tier {
             Tier::Quick => block_layouts(4, 2),
@@ -202,6 +233,22 @@ impl Prop for C01 {
 
     fn run(&self, s: &Shape) -> String {
         reset_hooks();
+        if s.entry == Entry::SameBuffer {
+            let inp = make_inputs(s.n, 0, s.layout);
+            let (r1, r2) = same_buffer_ranges(s.n)[s.m].clone();
+            let mut mon = Mon::new(&inp.old, r1.clone(), &inp.old, r2.clone());
+            let r = algorithms::diff(s.alg, &mut mon, &inp.old, r1.clone(), &inp.old, r2.clone());
+            claim!(r.is_ok(), "diff returned an error although the hook never fails: {:?}", r);
+            mon.after_success();
+            engine::witness("paths_with_one_buffer_on_both_sides");
+            // the same items as two separate buffers give the same callbacks
+            let copy = Seq::Slice(inp.old_items.clone());
+            let mut mon2 = Mon::new(&inp.old, r1.clone(), &copy, r2.clone());
+            let r2x = algorithms::diff(s.alg, &mut mon2, &inp.old, r1.clone(), &copy, r2.clone());
+            claim!(r2x.is_ok(), "diff of the copied buffer failed");
+            claim!(mon.calls == mon2.calls, "one buffer on both sides gives {:?}, a copy of it on the new side gives {:?} (ranges {:?} / {:?})", mon.calls, mon2.calls, r1, r2);
+            return format!("{:?}", mon.calls);
+        }
         let inp = make_inputs(s.n, s.m, s.layout);
         if s.all_different {
             let ids: Vec<u32> = inp.old_items.iter().chain(inp.new_items.iter()).map(|x| x.0).collect();
@@ -271,7 +318,7 @@ impl Prop for C01 {
 
     fn shape_json(&self, s: &Shape) -> Value {
         json!({"all_different": s.all_different, "alg": alg_name(s.alg), "n": s.n, "m": s.m, "layout": s.layout.to_json(),
-               "entry": match s.entry { Entry::Module => "module", Entry::AlgDiff => "algorithms::diff", Entry::DiffSlices => "diff_slices", Entry::DeadlineClock => "diff_deadline+clock" }})
+               "entry": match s.entry { Entry::SameBuffer => "one buffer, two ranges", Entry::Module => "module", Entry::AlgDiff => "algorithms::diff", Entry::DiffSlices => "diff_slices", Entry::DeadlineClock => "diff_deadline+clock" }})
     }
     fn shape_from(&self, v: &Value) -> Shape {
         Shape {
@@ -284,6 +331,7 @@ impl Prop for C01 {
                 "module" => Entry::Module,
                 "algorithms::diff" => Entry::AlgDiff,
                 "diff_deadline+clock" => Entry::DeadlineClock,
+                "one buffer, two ranges" => Entry::SameBuffer,
                 _ => Entry::DiffSlices,
             },
         }
@@ -298,6 +346,10 @@ impl Prop for C01 {
     }
 
     fn describe(&self, s: &Shape, ints: &[i64], b: &[bool]) -> Value {
+        if s.entry == Entry::SameBuffer {
+            let (r1, r2) = same_buffer_ranges(s.n)[s.m].clone();
+            return json!({"buffer (used as old AND new, the same object)": ints.iter().take(s.n).collect::<Vec<_>>(), "old_range": [r1.start, r1.end], "new_range": [r2.start, r2.end]});
+        }
         let mut d = describe_inputs(s.n, s.m, s.layout, ints);
         if s.entry == Entry::DeadlineClock {
             d["deadline_probe_outcomes"] = json!(b);
@@ -316,7 +368,7 @@ impl Prop for C01 {
                 "similar::algorithms::{Replace,NoFinishHook} (inside patience)",
             ],
             bounds: match tier {
-                Tier::Quick => "3 algorithms x range lengths n,m in 0..=5 (Patience 0..=4) x {slice with 0/1 padding items before/after each range (16 combinations), offset lookups at (0,0),(1,0),(0,2),(3,1)} x entry points {alg module diff, algorithms::diff, diff_slices (whole slices)}, plus algorithms::diff_deadline under the symbolic clock (every expiry point) for n,m<=4; plus block-structured inputs (up to 4 blocks of 2 items a side over 3 block types, all items of different block types different; thorough: also block lengths 1 and 3 and 5 blocks) and large inputs without any common item (all items assumed pairwise different, one path each): 1x520, 520x1, 127x390, 3x300, 60x60 (thorough also 390x127, 300x3, 200x260, 1x1100), whole slices and offset lookups; plus the long structured families of common.rs::long_layouts (about 30 (thorough 53) inputs of 40..600 items a side: long changed stretches of repeated items between unique items, unique items moved across a repetitive body, mostly different inputs with a few common interior items, chains where every value occurs twice, runs / periodic stretches growing or shrinking by a period, a doubled item or block, every 16th item replaced; some as sub-ranges at unequal offsets; one path each); items symbolic over an unbounded alphabet (z3 Int), padding items symbolic too".into(),
+                Tier::Quick => "3 algorithms x range lengths n,m in 0..=5 (Patience 0..=4) x {slice with 0/1 padding items before/after each range (16 combinations), offset lookups at (0,0),(1,0),(0,2),(3,1)} x entry points {alg module diff, algorithms::diff, diff_slices (whole slices)}, plus algorithms::diff_deadline under the symbolic clock (every expiry point) for n,m<=4; plus block-structured inputs (up to 4 blocks of 2 items a side over 3 block types, all items of different block types different; thorough: also block lengths 1 and 3 and 5 blocks) and large inputs without any common item (all items assumed pairwise different, one path each): 1x520, 520x1, 127x390, 3x300, 60x60 (thorough also 390x127, 300x3, 200x260, 1x1100), whole slices and offset lookups; plus one buffer of 2..=4 (thorough 5) symbolic items passed as old AND new (the same object) with every pair of different ranges sharing an end, and shifted / nested windows; plus the long structured families of common.rs::long_layouts (about 30 (thorough 53) inputs of 40..600 items a side: long changed stretches of repeated items between unique items, unique items moved across a repetitive body, mostly different inputs with a few common interior items, chains where every value occurs twice, runs / periodic stretches growing or shrinking by a period, a doubled item or block, every 16th item replaced; some as sub-ranges at unequal offsets; one path each); items symbolic over an unbounded alphabet (z3 Int), padding items symbolic too".into(),
                 Tier::Thorough => "as quick, with n,m in 0..=6 (Patience 0..=5), padding before in {0,1,2}; for n+m>8 only a reduced set of layouts".into(),
             },
             outside: "range lengths beyond the bound; Index implementations with side effects; PartialEq implementations that are not equivalence relations; the promptness / plumbing clauses of deadlines (C07)".into(),
@@ -325,7 +377,7 @@ impl Prop for C01 {
                 "Sym's Hash is constant in symbolic runs (lawful); concrete re-executions hash the value".into(),
                 "z3 4.8.12 decides QF_LIA equalities/orderings correctly".into(),
             ],
-            required_witnesses: vec!["paths_with_equal", "paths_with_delete_and_insert", "paths_with_subrange_differential", "large_all_different_paths", "long_structured_paths"],
+            required_witnesses: vec!["paths_with_equal", "paths_with_delete_and_insert", "paths_with_subrange_differential", "large_all_different_paths", "long_structured_paths", "paths_with_one_buffer_on_both_sides"],
             rule: "one state = one explored path (leaf) of the real code for one shape; one transition = one solver-decided comparison".into(),
         }
     }
